@@ -256,10 +256,10 @@ where
     let fri_params = config.fri_params(degree_bits);
     let cap_height = fri_params.config.cap_height;
 
-    ensure!(trace_cap.height() == cap_height);
+    ensure!(trace_cap.len() == 1 << cap_height);
     ensure!(
         quotient_polys_cap.is_none()
-            || quotient_polys_cap.as_ref().map(|q| q.height()) == Some(cap_height)
+            || quotient_polys_cap.as_ref().map(|q| q.len()) == Some(1 << cap_height)
     );
 
     ensure!(local_values.len() == S::COLUMNS);
@@ -319,7 +319,7 @@ where
             ensure!(ctl_zs_first.len() == num_ctl_zs);
         }
 
-        ensure!(auxiliary_polys_cap.height() == cap_height);
+        ensure!(auxiliary_polys_cap.len() == 1 << cap_height);
         ensure!(auxiliary_polys.len() == num_auxiliary);
         ensure!(auxiliary_polys_next.len() == num_auxiliary);
     } else {
